@@ -15,6 +15,7 @@
 package circuitbreaker
 
 import (
+	"math"
 	"reflect"
 	"sync/atomic"
 
@@ -657,7 +658,7 @@ func newErrorCountCircuitBreakerWithStat(r *Rule, stat *errorCounterLeapArray) *
 			probeNumber:          r.ProbeNum,
 		},
 		minRequestAmount:    r.MinRequestAmount,
-		errorCountThreshold: uint64(r.Threshold),
+		errorCountThreshold: uint64(math.Ceil(r.Threshold)), // "count reaches the threshold": never truncate a fractional threshold toward zero
 		stat:                stat,
 	}
 }
